@@ -135,10 +135,8 @@ layer**: `out_channels = C`, `kernel_size = (K,)`, continuous and discrete. -/
 theorem pit_open_cost_eq_seed (d : Bool) (C K : ℕ) (hK : 0 < K) (cin groups : ℚ) (out : List ℚ)
     (bias : Bool) :
     conv1dSpec d C K cin groups out bias (fun _ => 1) (fun _ => 1) (fun _ => 1)
-      = { (LSpec.empty : LSpec ℚ) with in_channels := cin, out_channels := C, in_features := cin,
-          out_features := C, groups := groups, kernel_size := [(K : ℚ)], output_shape := out,
-          hasBias := bias } := by
-  unfold conv1dSpec
+      = conv1dSeedSpec C K cin groups out bias := by
+  unfold conv1dSpec conv1dSeedSpec
   rw [outEff_open]
   cases d
   · rw [kEff_open_cont]
@@ -177,7 +175,8 @@ theorem term_d (dsc : Bool) (C : ℕ) (α : ℕ → ℚ) (i c : ℕ) :
   by_cases hk : c + 1 = C
   · cases dsc <;> simp [hk, Dual.const, Dual.binSTE]
   · by_cases hci : c = i
-    · cases dsc <;> simp [hk, hci, Dual.abs, Dual.binSTE]
+    · subst hci
+      cases dsc <;> simp [hk, Dual.abs, Dual.binSTE]
     · cases dsc <;> simp [hk, hci, Dual.abs, Dual.binSTE]
 
 /-- **`∂ out_features_eff / ∂ alpha[i] = sign(alpha[i])` for every element that is not the
@@ -243,13 +242,10 @@ theorem dOutEff_nonzero_iff (dsc : Bool) (C : ℕ) (α : ℕ → ℚ) (i : ℕ) 
 /-- gradient of the `params` cost of a Conv1d with respect to `alpha[i]`, through the generated
 cost function in the Dual reading: `sign(alpha[i]) · (cin·k + bias)` -/
 theorem params_conv1d_grad_alpha (dsc : Bool) (C : ℕ) (α : ℕ → ℚ) (i : ℕ) (cin k : ℚ) (bias : Bool) :
-    (Gen.params._params_conv1d_generic.val
-      ({ (LSpec.dual { (LSpec.empty : LSpec ℚ) with in_channels := cin, kernel_size := [k],
-            hasBias := bias } LSpec.empty) with
-          out_channels := outEffD dsc C (seedAt α i) } : LSpec Dual)).d
+    (Gen.params._params_conv1d_generic.val (conv1dAlphaDual dsc C α i cin k bias)).d
       = dOutEff dsc C α i * (cin * k + if bias then 1 else 0) := by
   unfold Gen.params._params_conv1d_generic.val dOutEff
-  simp only [LSpec.dual, LSpec.empty, CostNum.mul, CostNum.add, CostNum.idx, CostNum.ofRat]
+  simp only [conv1dAlphaDual, LSpec.empty, CostNum.mul, CostNum.add, CostNum.idx, CostNum.ofRat]
   cases bias <;> simp <;> ring
 
 /-! ### non-vacuity -/
